@@ -52,7 +52,7 @@ type c10World struct {
 	f       *flamego.Flame
 	handles []*flamego.Route
 	trees   map[string]route.Tree // the same history through the plain tree API, no shortcut
-	leaves  [][]route.Leaf // per registration: the leaf of every method it covers
+	leaves  [][]route.Leaf        // per registration: the leaf of every method it covers
 	desc    []string
 	hitText string
 	hitPar  map[string]string
@@ -60,11 +60,26 @@ type c10World struct {
 }
 
 func c10Apply(p *route.Parser, ops []c10Op) (w *c10World, ok bool, bad string) {
+	return c10ApplyI(p, ops, false)
+}
+
+// c10ApplyI: with interleave, the whole probe set is served after every operation (requests must
+// not change routing state: the final answers have to be the same as without them).
+func c10ApplyI(p *route.Parser, ops []c10Op, interleave bool) (w *c10World, ok bool, bad string) {
 	w = &c10World{f: flamego.NewWithLogger(io.Discard), trees: map[string]route.Tree{}}
 	for _, m := range c08KnownMethods {
 		w.trees[m] = route.NewTree()
 	}
-	for _, op := range ops {
+	for oi, op := range ops {
+		if interleave && oi > 0 {
+			for _, method := range []string{"GET", "POST", "BREW"} {
+				for _, path := range c10Paths {
+					for _, hdr := range c10ReqHdrs {
+						c10One(w, method, path, hdr)
+					}
+				}
+			}
+		}
 		switch op.Kind {
 		case "reg":
 			if len(w.handles) >= c10MaxRegs {
@@ -138,10 +153,11 @@ func c10Apply(p *route.Parser, ops []c10Op) (w *c10World, ok bool, bad string) {
 }
 
 type c10Case struct {
-	Ops     []c10Op           `json:"history"`
-	Method  string            `json:"request_method"`
-	Path    string            `json:"path"`
-	Headers map[string]string `json:"request_headers"`
+	Ops         []c10Op           `json:"history"`
+	Method      string            `json:"request_method"`
+	Path        string            `json:"path"`
+	Headers     map[string]string `json:"request_headers"`
+	Interleaved bool              `json:"probe_set_served_after_every_operation,omitempty"`
 }
 
 func c10One(w *c10World, method, path string, hdr map[string]string) (bad, outcome string) {
@@ -253,6 +269,25 @@ func c10Run(r *core.Run) {
 				}
 			}
 		}
+		if len(hist) >= 2 && (r.Thorough() || (hist[0]+hist[len(hist)-1])%4 == 0) {
+			// the same history with the probe set served after every operation
+			wi, oki, _ := c10ApplyI(p, hops, true)
+			if oki {
+				for _, method := range []string{"GET", "POST", "BREW"} {
+					for _, path := range c10Paths {
+						for _, hdr := range c10ReqHdrs {
+							l.Evals++
+							_, o1 := c10One(w, method, path, hdr)
+							bad2, o2 := c10One(wi, method, path, hdr)
+							if bad2 != "" || o1 != o2 {
+								l.Violate("requests-change-routing-state", fmt.Sprintf("with the probe set served after every operation the request %s %q %v is answered %q (%s), without: %q [history %v]", method, path, hdr, o2, bad2, o1, w.desc),
+									c10Case{Ops: hops, Method: method, Path: path, Headers: hdr, Interleaved: true})
+							}
+						}
+					}
+				}
+			}
+		}
 		if len(hist) == depth && hist[0]%5 == 0 {
 			l.Sample(w.desc)
 		}
@@ -275,12 +310,21 @@ func c10Replay(raw json.RawMessage) (bool, string) {
 		return false, err.Error()
 	}
 	p, _ := route.NewParser()
-	w, ok, bad := c10Apply(p, c.Ops)
+	w, ok, bad := c10ApplyI(p, c.Ops, c.Interleaved)
 	if bad != "" {
 		return true, bad
 	}
 	if !ok {
 		return false, "history not executable as recorded"
+	}
+	if c.Interleaved {
+		w0, _, _ := c10Apply(p, c.Ops)
+		_, o0 := c10One(w0, c.Method, c.Path, c.Headers)
+		b1, o1 := c10One(w, c.Method, c.Path, c.Headers)
+		if b1 != "" || o0 != o1 {
+			return true, fmt.Sprintf("interleaved probes change the answer: %q vs %q %s", o1, o0, b1)
+		}
+		return false, ""
 	}
 	b, _ := c10One(w, c.Method, c.Path, c.Headers)
 	return b != "", b
